@@ -151,6 +151,7 @@ class TDS(BaseRoutine):
         self.niter = 0
         self._switch_idx = 0          # index into `System.switch_times`
         self._last_switch_t = -999    # the last critical time
+        self._t_land = None           # event time or `tf` that the next time stamp must equal exactly
         self.custom_event = False
         self.mis = [1, 1]
         self.pbar = None
@@ -317,7 +318,7 @@ class TDS(BaseRoutine):
         dae = system.dae
 
         self.calc_h(resume=True)
-        dae.t += self.h
+        self._advance_t()
 
         logger.debug("Resuming simulation: initial step size is h=%.4fs.", self.h)
         logger.debug("Resuming from t=%.4fs.", system.dae.t)
@@ -429,7 +430,7 @@ class TDS(BaseRoutine):
                 # check if the next step is critical time
                 self.do_switch()
                 self.calc_h()
-                dae.t += self.h
+                self._advance_t()
                 dae.kcount += 1
 
                 logger.debug("Next time step advanced to t=%g", dae.t)
@@ -473,7 +474,7 @@ class TDS(BaseRoutine):
                     self.busted = True
                     break
 
-                dae.t += self.h
+                self._advance_t()
 
         if self.busted:
             logger.error(self.err_msg)
@@ -609,9 +610,12 @@ class TDS(BaseRoutine):
                     self.busted = True
 
         self.h = self.deltat
+        self._t_land = None
 
         # do not skip over the end time
-        self.h = max(min(self.h, config.tf - system.dae.t), 0)
+        if self.h >= config.tf - system.dae.t:
+            self.h = max(config.tf - system.dae.t, 0)
+            self._t_land = config.tf
 
         # look past a switch at the exact current time to avoid h == 0.
         # `_switch_idx` itself is only advanced by `do_switch` once the event has been applied;
@@ -625,6 +629,7 @@ class TDS(BaseRoutine):
         if next_idx < system.n_switches:
             if (system.dae.t + self.h) > system.switch_times[next_idx]:
                 self.h = system.switch_times[next_idx] - system.dae.t
+                self._t_land = system.switch_times[next_idx]
 
         if self.data_csv is not None:
             if self.k_csv + 1 < self.data_csv.shape[0]:
@@ -632,10 +637,25 @@ class TDS(BaseRoutine):
                 self.h = self.data_csv[self.k_csv, 0] - system.dae.t
             else:
                 self.h = 0
+            self._t_land = None
 
         logger.debug("Calculated TDS.h = %g", self.h)
 
         return self.h
+
+    def _advance_t(self):
+        """
+        Advance ``dae.t`` by ``self.h``.
+
+        When the step was clipped to an event time or to ``tf``, ``h`` is the rounded
+        difference ``target - t``, and ``t + h`` can miss ``target`` by one ulp. The time
+        stamp would then pass the event time (which is compared with ``==``), the next
+        step size would be negative and the time axis non-monotonic. Land exactly.
+        """
+        dae = self.system.dae
+        dae.t += self.h
+        if (self._t_land is not None) and (self.h > 0):
+            dae.set_t(self._t_land)
 
     def _calc_h_first(self):
         """
